@@ -5,6 +5,7 @@ import (
 	"fmt"
 	"os"
 	"path/filepath"
+	"strings"
 	"time"
 
 	"github.com/asticode/go-astikit"
@@ -239,6 +240,57 @@ func Ops() []Op {
 		readOp("read-ttml-anonymous", "ttml", []byte(`<tt xmlns="http://www.w3.org/ns/ttml" xmlns:tts="http://www.w3.org/ns/ttml#styling"><head><styling><style tts:color="red"/></styling><layout><region tts:origin="10% 10%"/></layout></head><body><div><p begin="1s" end="2s">x</p><p xml:id="p2" begin="3s" end="4s"><span>y</span></p></div></body></tt>`)),
 		readOp("read-vtt-no-ids", "vtt", []byte("WEBVTT\n\nRegion: id=a width=40%\n\n00:01.000 --> 00:02.000 region:a\nx\n\n00:03.000 --> 00:04.000\ny\n")),
 		readOp("read-ttml-unmapped-lang", "ttml", []byte(`<tt xmlns="http://www.w3.org/ns/ttml" xml:lang="de"><body><div><p begin="1s" end="2s">x</p></div></body></tt>`)),
+		// batteries: one operation that reads many small documents differing in ONE header value - whatever a reader
+		// may be tempted to register, memoise or learn from what it sees (language tags, colour words, time forms)
+		{"read-ttml-language-tags", func(string) string {
+			var out strings.Builder
+			for _, tag := range []string{"fr", "FR", "fr-CA", "fra", "fre", "en-US", "eng", "de", "deu", "nb", "nb-NO", "nn", "no", "nor", "ja", "jpn", "zh", "zh-Hans", "chi", "cmn-Hans", "x-klingon", "", " "} {
+				s, err, pan := corpus.Read("ttml", strings.NewReader(`<tt xmlns="http://www.w3.org/ns/ttml" xml:lang="`+tag+`"><body><div><p begin="1s" end="2s">x</p></div></body></tt>`))
+				fmt.Fprintf(&out, "%q: %v %v %s\n", tag, err, pan, dump.Subs(s))
+			}
+			return out.String()
+		}},
+		{"read-ttml-colours-and-times", func(string) string {
+			var out strings.Builder
+			for _, col := range []string{"red", "RED", "#ff0000", "#f00", "#ff000080", "rgb(255,0,0)", "rgba(255,0,0,128)", "transparent", "aqua", "no-such-colour", ""} {
+				for _, tm := range []string{"2s", "2.5s", "00:00:02.500", "00:00:02:12", "50f", "2500ms", "0.000694444h"} {
+					s, err, pan := corpus.Read("ttml", strings.NewReader(`<tt xmlns="http://www.w3.org/ns/ttml" xmlns:tts="http://www.w3.org/ns/ttml#styling" xmlns:ttp="http://www.w3.org/ns/ttml#parameter" ttp:frameRate="25"><body><div><p begin="1s" end="`+tm+`" tts:color="`+col+`">x</p></div></body></tt>`))
+					fmt.Fprintf(&out, "%q %q: %v %v %s\n", col, tm, err, pan, dump.Subs(s))
+				}
+			}
+			return out.String()
+		}},
+		{"read-stl-language-and-code-page-codes", func(string) string {
+			var out strings.Builder
+			base := docData("stl-open-25-2")
+			for lc := 0; lc < 0x80; lc++ {
+				d := append([]byte{}, base...)
+				copy(d[14:16], fmt.Sprintf("%02X", lc))
+				s, err, pan := corpus.Read("stl", bytes.NewReader(d))
+				lang := ""
+				if s != nil && s.Metadata != nil {
+					lang = s.Metadata.Language
+				}
+				fmt.Fprintf(&out, "LC %02X: %v %v %q\n", lc, err, pan, lang)
+			}
+			for _, cpn := range []string{"437", "850", "860", "863", "865", "000", "   "} {
+				d := append([]byte{}, base...)
+				copy(d[0:3], cpn)
+				s, err, pan := corpus.Read("stl", bytes.NewReader(d))
+				fmt.Fprintf(&out, "CPN %q: %v %v %s\n", cpn, err, pan, dump.Subs(s))
+			}
+			return out.String()
+		}},
+		{"read-ssa-style-names-and-colours", func(string) string {
+			var out strings.Builder
+			for _, name := range []string{"Default", "*Default", "default", "DEFAULT", "Alt", " spaced name ", ""} {
+				for _, col := range []string{"255", "&H255", "&H000000FF", "&HFF", "-1", "4294967295", "65535"} {
+					s, err, pan := corpus.Read("ssa", strings.NewReader("[V4 Styles]\nFormat: Name, PrimaryColour, Bold\nStyle: "+name+","+col+",-1\n\n[Events]\nFormat: Start, End, Style, Text\nDialogue: 0:00:01.00,0:00:02.00,"+name+",x\n"))
+					fmt.Fprintf(&out, "%q %q: %v %v %s\n", name, col, err, pan, dump.Subs(s))
+				}
+			}
+			return out.String()
+		}},
 		{"write-ttml-stl-unknown-lang", func(string) string {
 			l := richList("u")
 			l.Metadata.Language = "klingon"
